@@ -242,7 +242,25 @@ func e2e(q string, n int) string {
 	if !script.Ready(st.Msgs) {
 		return fmt.Sprintf("startup failed: %v", pgwire.Briefs(st.Msgs))
 	}
-	b := append(pgwire.Parse("s", q, nil), pgwire.Describe('S', "s")...)
+	// the client may prespecify types for none, some, all or more than all of the placeholders (as
+	// unspecified, 0): what Describe announces is the count ParseParameters reported
+	var oids []uint32
+	switch k := (len(q) + n) % 5; k {
+	case 1:
+		oids = make([]uint32, 1)
+	case 2:
+		oids = make([]uint32, n)
+	case 3:
+		oids = make([]uint32, n+1)
+	case 4:
+		if n > 1 {
+			oids = make([]uint32, n-1)
+		}
+	}
+	if len(oids) > 2000 {
+		oids = nil
+	}
+	b := append(pgwire.Parse("s", q, oids), pgwire.Describe('S', "s")...)
 	b = append(b, pgwire.Sync()...)
 	r := s.Send(b)
 	if r.Err != nil {
